@@ -147,7 +147,8 @@ def header_shapes(tier):
     end octet x trailer."""
     types = range(256) if tier == 'thorough' else \
         [0, 1, 2, 3, 4, 7, 8, 9, 65, 127, 128, 206, 255]
-    chans = [b'\x00\x00', b'\x00\x01', b'\xff\xff', b'\x80\x00']
+    chans = [b'\x00\x00', b'\x00\x01', b'\xff\xff', b'\x80\x00',
+             b'\x00\xce', b'\xce\x00']
     payloads = [b'', b'\x00', b'\x00\x3c\x00\x50' + b'\x00' * 9,
                 b'\x00\x3c\x00\x00' + b'\x00' * 10, b'\xce',
                 b'\x00\x5a\x00\x0a', b'AMQP\x00\x00\x09\x01']
@@ -157,8 +158,10 @@ def header_shapes(tier):
         for ch in chans:
             for pl in payloads:
                 n = len(pl)
-                for size in sorted({0, 1, n - 1, n, n + 1, n + 2, 2**31,
-                                    2**32 - 1} - {-1}):
+                for size in sorted(({0, 1, n - 1, n, n + 1, n + 2, 2**31,
+                                     2**31 + n} |
+                                    {2**32 - k for k in range(1, 10)}) -
+                                   {-1}):
                     for end in ends:
                         for tr in trailers:
                             yield ('shape t=%d size=%d' % (t, size),
